@@ -73,13 +73,19 @@ Vars1 == {<<Stmt("x", e), Stmt("RETURN", V("x"))>> : e \in Lit1S \cup SC3 \cup A
      \cup {<<Stmt("x1", e), Stmt("y_2", V("x1")), Stmt("x1", f), Stmt("RETURN", L(<<V("x1"), V("y_2")>>))>> : e \in Lit1S, f \in SC3 \cup AtomsS}
      \cup {<<Stmt("a", e), Stmt("b", C("concat", <<V("a"), V("a")>>)), Stmt("a", C("limit_events", <<V("b"), I(1)>>)), Stmt("RETURN", D(<<E("s_abc", V("a")), E("s_eq", V("b"))>>))>> : e \in LA}
      \cup {<<Stmt("RETURN", e), Stmt("z", V("RETURN")), Stmt("RETURN", L(<<V("z"), V("true"), V("False"), V("NAME")>>))>> : e \in AtomsS \cup SC3}
+\* a variable (and an alias of it) is read again after it was passed to a built-in: built-ins must not
+\* change what a variable evaluates to
+Reuse == {<<Stmt("x", a), Stmt("y", C("concat", <<V("x"), b>>)), Stmt("RETURN", L(<<V("x"), V("y")>>))>> : a \in LA, b \in LA3}
+    \cup {<<Stmt("x", a), Stmt("z", V("x")), Stmt("y", C("concat", <<V("z"), b>>)), Stmt("w", C("limit_events", <<V("y"), I(1)>>)),
+            Stmt("RETURN", D(<<E("s_abc", V("x")), E("s_eq", V("y")), E("s_comma", V("z")), E("s_sq", V("w"))>>))>> : a \in LA, b \in LA3}
+    \cup {<<Stmt("x", a), Stmt("y", C("concat", <<b, V("x")>>)), Stmt("y2", C("concat", <<V("y"), V("x")>>)), Stmt("RETURN", L(<<V("x"), V("y"), V("y2")>>))>> : a \in LA3, b \in LA3}
 Vars2 == {<<Stmt("evs", x), Stmt("a", f), Stmt("RETURN", D(<<E("s_abc", V("a")), E("s_comma", V("evs"))>>))>> :
               x \in {QB("b1")}, f \in KeyPreserving(V("evs"), V("evs")) \cup Other(V("evs"), QB("b2"))}
      \cup {<<Stmt("evs", QB("b1")), Stmt("evs2", QB("b2")), Stmt("evs", f), Stmt("n", C("query_bucket_eventcount", <<S("b2")>>)),
              Stmt("RETURN", C("limit_events", <<V("evs"), V("n")>>))>> : f \in KeyPreserving(V("evs"), V("evs2"))}
      \cup {<<Stmt("bid", C("find_bucket", <<S("bkt")>>)), Stmt("evs", C("query_bucket", <<V("bid")>>)), Stmt("RETURN", L(<<V("bid"), f>>))>> : f \in Other(V("evs"), V("evs"))}
 
-Structural == Single(Atoms \cup Lists1 \cup Dicts1 \cup Lit2 \cup SCalls \cup InLits) \cup Vars1
+Structural == Single(Atoms \cup Lists1 \cup Dicts1 \cup Lit2 \cup SCalls \cup InLits) \cup Vars1 \cup Reuse
 WithBuiltins == Single(Builtins1 \cup Builtins2 \cup BInLits) \cup Vars2
 
 \* ---- random deeper programs -----------------------------------------------------------------
